@@ -413,16 +413,30 @@ func (p *bfdPeer) remoteDown() {
 }
 
 func (p *bfdPeer) resetPeer() {
-	if err := p.peerState.ResetPeer(context.Background(), &api.ResetPeerRequest{
-		Address:       p.peerAddress.String(),
-		Communication: "BFD is down",
-		Soft:          false,
-	}); err != nil {
-		p.logger.Warn("ResetPeer failed",
-			slog.String("Topic", "bfd"),
-			slog.String("Peer", p.peerAddress.String()),
-			slog.String("Err", err.Error()),
-		)
+	// ResetPeer is a management operation of the BGP server, so it waits for
+	// the management goroutine. That goroutine may in turn be waiting for this
+	// loop to stop (stopNeighbor -> bfdServer.DeletePeer -> bfdPeer.Stop), so
+	// the call must not keep the loop from noticing the shutdown.
+	ctx, cancel := context.WithCancel(context.Background())
+	defer cancel()
+	done := make(chan struct{})
+	go func() {
+		defer close(done)
+		if err := p.peerState.ResetPeer(ctx, &api.ResetPeerRequest{
+			Address:       p.peerAddress.String(),
+			Communication: "BFD is down",
+			Soft:          false,
+		}); err != nil {
+			p.logger.Warn("ResetPeer failed",
+				slog.String("Topic", "bfd"),
+				slog.String("Peer", p.peerAddress.String()),
+				slog.String("Err", err.Error()),
+			)
+		}
+	}()
+	select {
+	case <-done:
+	case <-p.eventShutdown:
 	}
 }
 
